@@ -94,6 +94,18 @@ func (s *signerDouble) ListAccounts(_ context.Context, in *pb.ListAccountsReques
 			}
 			id := make([]byte, 16)
 			id[0], id[15] = 0xc1, byte(a.ID)
+			if a.Distributed {
+				resp.DistributedAccounts = append(resp.DistributedAccounts, &pb.DistributedAccount{
+					Name: a.Path(), PublicKey: a.PubKey[:], CompositePublicKey: a.Composite[:], Uuid: id,
+					SigningThreshold: 2,
+					Participants: []*pb.Endpoint{
+						{Id: 1, Name: "signer-1.invalid", Port: 12001},
+						{Id: 2, Name: "signer-2.invalid", Port: 12002},
+						{Id: 3, Name: "signer-3.invalid", Port: 12003},
+					},
+				})
+				continue
+			}
 			resp.Accounts = append(resp.Accounts, &pb.Account{Name: a.Path(), PublicKey: a.PubKey[:], Uuid: id})
 		}
 	}
